@@ -41,6 +41,9 @@ pub struct Case {
     pub vi: usize,
     pub v1: Val,
     pub v2: Val,
+    /// user code builds the vectors / strings it hands to the bindings with spare capacity
+    /// (capacity > length, also when empty)
+    pub spare: bool,
 }
 
 /// The case list of a chunk: every function × {export, import} × every value of V(T); the reply
@@ -51,7 +54,11 @@ pub fn cases(funcs: &[SpecFunc]) -> Vec<Case> {
         let vals = refabi::universe::values(&f.ty);
         for dir in [Dir::Export, Dir::Import] {
             for (vi, v) in vals.iter().enumerate() {
-                out.push(Case { fi, dir: dir.clone(), vi, v1: v.clone(), v2: vals[(vi + 1) % vals.len()].clone() });
+                out.push(Case { fi, dir: dir.clone(), vi, v1: v.clone(), v2: vals[(vi + 1) % vals.len()].clone(), spare: false });
+                // every value of a heap-carrying type runs a second time with spare capacity
+                if f.ty.contains_heap() {
+                    out.push(Case { fi, dir: dir.clone(), vi, v1: v.clone(), v2: vals[(vi + 1) % vals.len()].clone(), spare: true });
+                }
             }
         }
     }
@@ -90,7 +97,7 @@ pub fn runner_main(args: &[String]) -> ! {
             o.flush().ok();
         }
         unsafe { libc::alarm(30) };
-        let rep = host.run_case(c.fi, &c.dir, &c.v1, &c.v2);
+        let rep = host.run_case(c.fi, &c.dir, &c.v1, &c.v2, c.spare);
         unsafe { libc::alarm(0) };
         let mut o = out.lock();
         writeln!(o, "R {}", report_json(i, &rep)).ok();
